@@ -170,7 +170,7 @@ def concrete_array(t, state, base=None):
             val = z3.Store(val, *zi, SInt(int(d)).z())
         else:
             val = z3.Store(val, *zi, z3.BoolVal(bool(d)))
-    state.heap[base.id] = {'val': val, 'tag': tag}
+    state.heap[base.id] = {'val': val, 'tag': tag, 'fn': None}
     return st.full_view(base)
 
 
@@ -209,6 +209,25 @@ def ground_truth(clause, fuel):
     if r2 == z3.unsat:
         return False
     return None
+
+
+def check_requires(contract, config, typed_args, fuel=64):
+    """True / False / None : do the inputs satisfy the contract's requires?"""
+    Mode.int_mode = contract.int_mode
+    pre = st.State()
+    params = contract.param_list(config)
+    vals = {}
+    for (name, _), t in zip(params, typed_args):
+        vals[name] = typed_to_value(t, pre)
+    ctx_pre = Ctx(vals, dict(pre.heap), dict(pre.lists), config=config or {})
+    ok = True
+    for label, b in labelled(contract.requires(ctx_pre) if contract.requires else None, 'requires'):
+        g = ground_truth(b, fuel)
+        if g is False:
+            return False
+        if g is None:
+            ok = None
+    return ok
 
 
 def check_concrete(contract, config, typed_args, native, fuel=64):
